@@ -301,6 +301,9 @@ DENSE_EVERY = 10
 
 
 def cases(prop, tier, seed):
+  global TRACE_CHUNK
+  # traces per TLC validation run (the runner validates up to 8 chunks in parallel JVMs)
+  TRACE_CHUNK = 60 if tier == 'quick' else 240
   rng = random.Random(7919 * int(seed) + 6)
   n = 300 if tier == 'quick' else 2500
   base = [_gen_script(rng, i) for i in range(n)]
